@@ -4,8 +4,23 @@ From DG Require Import CaseFormat ProtoWireRef ThriftWire ThriftGeneric ThriftEd
 Import ListNotations.
 Local Open Scope Z_scope.
 
-(* one op: kind, path, sub type, sub bytes, impl err, impl exist, impl result bytes, flags *)
-Definition step_401_core (idx : Z) (t : Z) (v : tval) (kind : Z) (p : list pstep) (st : Z) (sb : list Z)
+(* The Value API (descriptor attached) works with the DECLARED type of the addressed position: Value.GetByPath skips and
+   types the element by the descriptor, replace() compares the declared type with the new node's.  The model has no
+   descriptor, but the INITIAL value v0 of a history conforms to it (the generator builds value and IDL from one shape), so
+   wherever a path finds something in v0, that element's type IS the declared type of the position (a descriptor is a tree:
+   the type at a path depends on the field ids along it, not on the element reached).  A typed INSERTION of a node whose type
+   differs from that witness (the element had been unset by an earlier op) is outside the API contract, exactly as an element of
+   a type the container does not declare is for lists / sets / maps (set_compat): the code inserts it, the value stops
+   conforming to its descriptor, and from then on the Value API (declared types) and the model (wire types) legitimately
+   disagree about it. *)
+Definition declared_mismatch (v0 : tval) (p : list pstep) (x : tval) : bool :=
+  match lookup v0 0 p with
+  | LFound s _ => negb (type_of s =? type_of x)
+  | _ => false
+  end.
+
+(* one op: kind, path, sub type, sub bytes, impl err, impl exist, impl result bytes, flags; v0 = initial value of the history *)
+Definition step_401_core (v0 : tval) (idx : Z) (t : Z) (v : tval) (kind : Z) (p : list pstep) (st : Z) (sb : list Z)
                     (err ex : Z) (res : list Z) (flags : Z) : verdict * option tval :=
   let prev := encode v in
   let typed := (kind =? 3) || (kind =? 4) in
@@ -23,14 +38,20 @@ Definition step_401_core (idx : Z) (t : Z) (v : tval) (kind : Z) (p : list pstep
          key: set_compat of ThriftEdit.v, the hypothesis of C04_ast_set_wf) is outside the property's domain: the history
          ends here, what was judged so far stands *)
       if negb (wf x && set_compat p x v) then (VOk, None) else
+      (* the same for a typed insertion of a node whose type is not the declared one (witness: the initial value) *)
+      let ends := typed && declared_mismatch v0 p x && match ast_set true p x v with Some (_, false) => true | _ => false end in
+      let next (s : tval) := if ends then None else Some s in     (* the insertion itself is judged, then the history ends *)
+      (* ... unless the code REJECTS it (proposed hardening findings/patches/C04-value-insert-declared-type.diff): an error that
+         leaves the value unchanged is the other acceptable outcome, and the history goes on from the unchanged value *)
+      if ends && (err =? 1) && bytes_eqb res prev then (VOk, Some v) else
       (* the next model state is always ast_step (the function the history theorems of Properties_C04 are about) *)
       match ast_set true p x v with
       | None => (expect (100 + idx) ((err =? 1) && bytes_eqb res prev) [FZ 1; FB prev], Some (ast_step true v (OSet p x)))
       | Some (v', e) =>
-        if (err =? 0) && (ex =? Z.b2z e) && bytes_eqb res (encode v') then (VOk, Some (ast_step true v (OSet p x)))
+        if (err =? 0) && (ex =? Z.b2z e) && bytes_eqb res (encode v') then (VOk, next (ast_step true v (OSet p x)))
         else match ast_set false p x v with
              | Some (v2, e2) =>
-               if (err =? 0) && (ex =? Z.b2z e2) && bytes_eqb res (encode v2) then (VDrift 1, Some (ast_step false v (OSet p x)))
+               if (err =? 0) && (ex =? Z.b2z e2) && bytes_eqb res (encode v2) then (VDrift 1, next (ast_step false v (OSet p x)))
                else (VBad (200 + idx) [FZ 0; FZ (Z.b2z e); FB (encode v')], None)
              | None => (VBad (200 + idx) [FZ 0; FZ (Z.b2z e); FB (encode v')], None)
              end
@@ -87,9 +108,9 @@ Definition is_405 (v : tval) (p : list pstep) (err : Z) (res : list Z) : bool :=
 (* known deviation 404 (consequence of finding 106, GetDescByPath never descends): a typed edit whose LAST step is a field
    NAME below depth 2 that has to consult GetDescByPath (every unset; a set of an absent field) fails — error or nil-dereference
    panic — and leaves the value unchanged, where the model performs the edit *)
-Definition step_401 (idx : Z) (t : Z) (v : tval) (kind : Z) (p : list pstep) (st : Z) (sb : list Z)
+Definition step_401 (v0 : tval) (idx : Z) (t : Z) (v : tval) (kind : Z) (p : list pstep) (st : Z) (sb : list Z)
                     (err ex : Z) (res : list Z) (flags : Z) : verdict * option tval :=
-  match step_401_core idx t v kind p st sb err ex res flags with
+  match step_401_core v0 idx t v kind p st sb err ex res flags with
   | (VBad c d, o) =>
     let consulted := (kind =? 4) || ((kind =? 3) && match lookup v 0 p with LFound _ _ => false | _ => true end) in
     if Z.testbit flags 2 && consulted && ((err =? 1) || (err =? 3)) && bytes_eqb res (encode v) then (VKnown 404, None)
@@ -98,7 +119,7 @@ Definition step_401 (idx : Z) (t : Z) (v : tval) (kind : Z) (p : list pstep) (st
   | r => r
   end.
 
-Fixpoint run_401 (n : nat) (idx : Z) (t : Z) (v : tval) (fs : list field) : verdict :=
+Fixpoint run_401 (v0 : tval) (n : nat) (idx : Z) (t : Z) (v : tval) (fs : list field) : verdict :=
   match n with
   | O => match fs with [] => VOk | _ => VBad 97 [] end
   | S n' =>
@@ -106,9 +127,9 @@ Fixpoint run_401 (n : nat) (idx : Z) (t : Z) (v : tval) (fs : list field) : verd
     | FZ kind :: rest =>
       match parse_path rest with
       | Some (p, FZ st :: FB sb :: FZ err :: FZ ex :: FB res :: FZ flags :: rest') =>
-        match step_401 idx t v kind p st sb err ex res flags with
-        | (VOk, Some v') => run_401 n' (idx + 1) t v' rest'
-        | (VDrift c, Some v') => match run_401 n' (idx + 1) t v' rest' with VOk => VDrift c | o => o end
+        match step_401 v0 idx t v kind p st sb err ex res flags with
+        | (VOk, Some v') => run_401 v0 n' (idx + 1) t v' rest'
+        | (VDrift c, Some v') => match run_401 v0 n' (idx + 1) t v' rest' with VOk => VDrift c | o => o end
         | (o, _) => o
         end
       | _ => VBad 96 []
@@ -123,7 +144,7 @@ Definition check_401 (fs : list field) : verdict :=
     match decode_all t bs with
     | None => VSkip
     | Some v => if negb (wf v) then VSkip else
-                if (nops <? 0) || (nops >? 1000) then VBad 99 [] else run_401 (Z.to_nat nops) 0 t v rest
+                if (nops <? 0) || (nops >? 1000) then VBad 99 [] else run_401 v (Z.to_nat nops) 0 t v rest
     end
   | _ => VBad 99 []
   end.
